@@ -183,8 +183,8 @@ func c03Guarded(c *kit.Case, what string, limit uint64, f func()) {
 		if msg != "" {
 			c.Failf("%s", msg)
 		}
-	case <-time.After(60 * time.Second):
-		c.Failf("%s did not return within 60 s for a gas limit <= 50000 (loop without consuming gas?)", what)
+	case <-time.After(240 * time.Second):
+		c.Failf("%s did not return within 240 s for a gas limit <= 50000 (loop without consuming gas?)", what)
 	}
 	runtime.ReadMemStats(&after)
 	if d := after.TotalAlloc - before.TotalAlloc; d > limit {
